@@ -13,10 +13,31 @@ Conventions
     `min` -> `minv`; `round(e)` -> `rnd e`; `a == b` on data -> `eqv a b`; `ws2d(...)` -> the generated `Gen.Ws2d.ws2d`;
   * `for v in a:` / `for v in a[1:]:` become index loops reading the live array; tuple assignment evaluates the right-hand side first.
 Unsupported constructs raise -> exit 1 -> broken obligation of the refinement theorems.
+
+Instrumentation mode (`SafeMixin`; for every kernel declared with `safe=True`, IN ADDITION to the ordinary module, a second
+module `Hdc/Gen/Safe<Name>.lean`, namespace `Hdc.Gen.Safe`): the same program, statement by statement, with one extra mutable flag
+`bad : Bool` (declared first, initially `false`).  Before every statement `bad := (bad || c1 || c2 ...)`, where the `ci` are
+computed from the PYTHON AST of the expressions the statement evaluates (targets, value, loop iterable, `if` test; not the nested
+bodies), in evaluation order, duplicates within a statement dropped:
+  * `oob a.size i`            every subscript `a[i]` (read or store), unless `-len a <= i < len a`        [Hdc/PySafe.lean]
+  * `badSlice a.size lo hi`   every slice `a[lo:hi]` unless `0 <= lo <= hi <= len a`; `badSliceFrom a.size lo` for `a[lo:]`;
+                              `a[:hi]` is `a[0:hi]`; `a[:]` is never flagged (NumPy never raises on a slice, it wraps and clamps:
+                              flagged = the slice is not literally the cells lo..hi-1; the length agreement of `a[:] = b` is NOT
+                              instrumented); `for v in a` / `for v in a[lo:]` read by construction inside the array (only the slice
+                              bound is checked)
+  * `eqv e2 (nat 0)`          every SCALAR division `e1 / e2` (both operands `int` / `num`); `decide (k = 0)` when `e2` is an `int`;
+                              nothing when `e2` is a non-zero literal (`/ 2`)
+                              (array-valued NumPy divisions do not raise and are not instrumented)
+  * `(Gen.Safe.g args).2`     every call of another translated kernel `g` (ws2d, brentq, gammafit, ...); the call itself becomes
+                              `(Gen.Safe.g args).1`
+  * operands of `and` / `or` / `x if c else y` that Python evaluates conditionally carry their guard: `(g && c)`
+and every `return e` becomes `return (e, bad)`.  Constructs the instrumentation does not understand raise `Unsupported("safe: ...")`
+(the Safe module is then reported FAILED); the ordinary output never depends on this mode (byte-identical).
 """
 import ast
 import hashlib
 import os
+import re
 import sys
 from pathlib import Path
 
@@ -31,13 +52,15 @@ class Unsupported(Exception):
 KERNELS = [
     dict(name="tinterpolate", file="hdc/algo/ops/tinterpolate.py", func="tinterpolate",
          params=[("x", "arrnum"), ("template", "arrnum"), ("labels", "arrint"), ("template_out", "skip"), ("out", "arrnum")],
-         consts={"1e-05": "lam"}, extra="(rnd : α → α) (lam : α)", ret="out", uses="[IntCast α]", imports=["Hdc.Gen.Ws2d"]),
+         consts={"1e-05": "lam"}, extra="(rnd : α → α) (lam : α)", ret="out", uses="[IntCast α]", imports=["Hdc.Gen.Ws2d"],
+         safe=True, safe_imports=["Hdc.Gen.SafeWs2d"]),
     dict(name="brentq", file="hdc/algo/ops/stats.py", func="brentq",
          params=[("xa", "num"), ("xb", "num"), ("s", "num")],
-         consts={"2e-12": "xtol", "8.881784197001252e-16": "rtol"}, extra="(f : α → α) (xtol rtol : α)", ret=None, lambda_as="f", uses=""),
+         consts={"2e-12": "xtol", "8.881784197001252e-16": "rtol"}, extra="(f : α → α) (xtol rtol : α)", ret=None, lambda_as="f", uses="", safe=True),
     dict(name="ws2doptv", file="hdc/algo/ops/ws2doptv.py", func="ws2doptv",
          params=[("y", "arrnum"), ("nodata", "num"), ("llas", "arrnum"), ("out", "arrnum"), ("lopt", "arrnum")],
-         consts={}, extra="(F : VFns α) (rnd : α → α)", ret=("out", "lopt"), uses="", imports=["Hdc.Gen.Ws2d"]),
+         consts={}, extra="(F : VFns α) (rnd : α → α)", ret=("out", "lopt"), uses="", imports=["Hdc.Gen.Ws2d"],
+         safe=True, safe_imports=["Hdc.Gen.SafeWs2d"]),
 ]
 
 
@@ -203,6 +226,10 @@ class K:
             self.ty[name] = t
             self.emit(ind, f"let mut {name} : {self.LEAN_TY[t]} := {term}")
 
+    def callee_term(self, name, args):
+        """hook: the call of another translated kernel (the instrumentation mode calls the instrumented callee)"""
+        return ("Gen.Ws2d.ws2d" if name == "ws2d" else f"Gen.NumKernels.{name}") + " " + args
+
     def value_term(self, v):
         """(type, term) of a right-hand side"""
         if isinstance(v, ast.Call) and isinstance(v.func, ast.Attribute) and v.func.attr == "copy":
@@ -213,7 +240,7 @@ class K:
             return "arrnum", f"Array.replicate {size} (nat 0)"
         if isinstance(v, ast.Call) and isinstance(v.func, ast.Name) and v.func.id == "ws2d":
             a = v.args
-            return "arrnum", f"Gen.Ws2d.ws2d {a[0].id} {self.nexpr(a[1])} {a[2].id}"
+            return "arrnum", self.callee_term("ws2d", f"{a[0].id} {self.nexpr(a[1])} {a[2].id}")
         if isinstance(v, ast.Lambda):
             return "lambda", None
         if isinstance(v, ast.Subscript) and isinstance(v.slice, ast.Slice) and v.slice.lower is None and v.slice.upper is None and isinstance(v.value, ast.Name):
@@ -403,6 +430,183 @@ class K:
         return "\n".join(self.lines)
 
 
+class SafeMixin:
+    """Instrumentation mode (see the module docstring): mixed in FRONT of a translator class (`K` or a subclass), it adds
+    the flag `bad` to the statements that class emits.  The checks are computed from the Python AST, independently of how
+    the translator renders the statement."""
+    SAFE_NS = "Gen.Safe"
+    _want = "1"
+
+    # ---------------- calls of translated kernels: the instrumented callee
+    def callee_term(self, name, args):
+        return f"({self.SAFE_NS}.{name} {args}).{self._want}"
+
+    def callee_names(self):
+        return {"ws2d"} | set(self.cfg.get("callees", ()))
+
+    def callee_flag(self, e):
+        """the flag returned by the instrumented callee for the call `e`"""
+        self._want = "2"
+        try:
+            if e.func.id == "ws2d":
+                return self.value_term(e)[1]
+            t = self.call_kernel(e)
+            return t[1:-1] if t.startswith("((") and t.endswith(")") else t
+        finally:
+            self._want = "1"
+
+    # ---------------- checks of one expression
+    def guarded(self, g, c):
+        return c if not g else "(" + " && ".join(list(g) + [f"({c})"]) + ")"
+
+    def ck(self, e, out, g=()):
+        if e is None or isinstance(e, (ast.Constant, ast.Name)):
+            return
+        if isinstance(e, ast.Lambda):
+            # a closure is evaluated by its caller; it becomes a parameter (`f`) of the generated function
+            for n in ast.walk(e.body):
+                if isinstance(n, ast.Subscript) or (isinstance(n, ast.BinOp) and isinstance(n.op, (ast.Div, ast.FloorDiv, ast.Mod))) \
+                        or (isinstance(n, ast.Call) and isinstance(n.func, ast.Name) and n.func.id in self.callee_names()):
+                    raise Unsupported("safe: lambda with a subscript, a division or a kernel call")
+            return
+        if isinstance(e, ast.Attribute):
+            return self.ck(e.value, out, g)
+        if isinstance(e, ast.Subscript):
+            if isinstance(e.value, ast.Attribute) and e.value.attr == "shape":       # x.shape[0]: a tuple
+                return
+            if not isinstance(e.value, ast.Name):
+                raise Unsupported("safe: subscript of an expression")
+            arr, sl = e.value.id, e.slice
+            if self.ty.get(arr) not in ("arrnum", "arrint"):
+                raise Unsupported(f"safe: subscript of {arr} : {self.ty.get(arr)}")
+            if isinstance(sl, ast.Slice):
+                if sl.step is not None:
+                    raise Unsupported("safe: slice step")
+                self.ck(sl.lower, out, g)
+                self.ck(sl.upper, out, g)
+                if sl.lower is None and sl.upper is None:
+                    return
+                for b in (sl.lower, sl.upper):
+                    if b is not None and self.typeof(b) != "int":
+                        raise Unsupported("safe: slice bound")
+                if sl.upper is None:
+                    out.append(self.guarded(g, f"badSliceFrom {arr}.size {self.iexpr(sl.lower)}"))
+                else:
+                    lo = "(0 : Int)" if sl.lower is None else self.iexpr(sl.lower)
+                    out.append(self.guarded(g, f"badSlice {arr}.size {lo} {self.iexpr(sl.upper)}"))
+                return
+            if isinstance(sl, ast.Tuple) or self.typeof(sl) != "int":
+                raise Unsupported("safe: index that is not an integer")
+            self.ck(sl, out, g)
+            out.append(self.guarded(g, f"oob {arr}.size {self.iexpr(sl)}"))
+            return
+        if isinstance(e, ast.BinOp):
+            self.ck(e.left, out, g)
+            self.ck(e.right, out, g)
+            if isinstance(e.op, (ast.Div, ast.FloorDiv, ast.Mod)):
+                lt, rt = self.typeof(e.left), self.typeof(e.right)
+                if lt in ("int", "num") and rt in ("int", "num"):
+                    if isinstance(e.right, ast.Constant) and isinstance(e.right.value, (int, float)) and not isinstance(e.right.value, bool):
+                        if e.right.value == 0:
+                            out.append(self.guarded(g, "true"))
+                        # a non-zero literal divisor (`/ 2`) needs no check
+                    elif rt == "int":
+                        out.append(self.guarded(g, f"decide ({self.iexpr(e.right)} = (0 : Int))"))
+                    else:
+                        out.append(self.guarded(g, f"eqv {self.nexpr(e.right)} (nat 0)"))
+                else:
+                    self.array_divs.append(ast.unparse(e))          # NumPy array division: does not raise
+            return
+        if isinstance(e, ast.UnaryOp):
+            return self.ck(e.operand, out, g)
+        if isinstance(e, ast.Compare):
+            self.ck(e.left, out, g)
+            for c in e.comparators:
+                self.ck(c, out, g)
+            return
+        if isinstance(e, ast.BoolOp):
+            gs = list(g)
+            for v in e.values:
+                self.ck(v, out, tuple(gs))
+                b = self.bexpr(v)
+                gs.append(b if isinstance(e.op, ast.And) else f"(!{b})")
+            return
+        if isinstance(e, ast.IfExp):
+            self.ck(e.test, out, g)
+            b = self.bexpr(e.test)
+            self.ck(e.body, out, tuple(g) + (b,))
+            self.ck(e.orelse, out, tuple(g) + (f"(!{b})",))
+            return
+        if isinstance(e, (ast.Tuple, ast.List)):
+            for x in e.elts:
+                self.ck(x, out, g)
+            return
+        if isinstance(e, ast.Call):
+            if isinstance(e.func, ast.Attribute):
+                self.ck(e.func.value, out, g)
+            for a in e.args:
+                self.ck(a, out, g)
+            for kw in e.keywords:
+                self.ck(kw.value, out, g)
+            if isinstance(e.func, ast.Name) and e.func.id in self.callee_names():
+                out.append(self.guarded(g, self.callee_flag(e)))
+            return
+        raise Unsupported("safe: " + type(e).__name__)
+
+    def stmt_checks(self, s):
+        out = []
+        if isinstance(s, ast.Assign):
+            self.ck(s.value, out)
+            for t in s.targets:
+                self.ck(t, out)
+        elif isinstance(s, ast.AugAssign):
+            self.ck(s.value, out)
+            self.ck(s.target, out)
+        elif isinstance(s, ast.For):
+            self.ck(s.iter, out)
+        elif isinstance(s, ast.If):
+            self.ck(s.test, out)
+        elif isinstance(s, (ast.Return, ast.Expr)):
+            self.ck(s.value, out)
+        elif not isinstance(s, (ast.Break, ast.Continue, ast.Pass)):
+            raise Unsupported("safe: statement " + type(s).__name__)
+        return list(dict.fromkeys(out))
+
+    # ---------------- statements
+    def stmt(self, s, ind):
+        if isinstance(s, ast.Expr) and isinstance(s.value, ast.Constant):
+            return super().stmt(s, ind)
+        ndiv = len(self.array_divs)
+        cs = self.stmt_checks(s)
+        if cs:
+            self.emit(ind, "bad := (bad || " + " || ".join(f"({c})" for c in cs) + ")")
+        first = len(self.lines)
+        r = super().stmt(s, ind)
+        if not isinstance(s, (ast.For, ast.If)):
+            # safety net: an array access / a division in the emitted statement that no check accounts for
+            txt = " ".join(self.lines[first:])
+            if re.search(r"(?<![A-Za-z0-9_.])(rd|rdI|wr|wrI)(?![A-Za-z0-9_])", txt) and not any(c.lstrip("(").startswith(("oob", "badSlice")) or " oob " in c for c in cs):
+                raise Unsupported("safe: array access without a check in: " + txt[:80])
+            lit = any(isinstance(n, ast.BinOp) and isinstance(n.op, ast.Div) and isinstance(n.right, ast.Constant) for n in ast.walk(s))
+            if " / " in txt and not lit and not any(("eqv " in c or "decide (" in c) for c in cs) and len(self.array_divs) == ndiv:
+                raise Unsupported("safe: division without a check in: " + txt[:80])
+        return r
+
+    def emit(self, ind, txt):
+        if txt.startswith("return "):
+            txt = f"return ({txt[len('return '):]}, bad)"
+        super().emit(ind, txt)
+
+    def run(self):
+        self.array_divs = []
+        self.emit(1, "let mut bad : Bool := false")       # declared first: first component of every loop state
+        return super().run()
+
+
+def safe_module_of(cfg):
+    return cfg.get("safe_module") or "Safe" + module_of(cfg)[len("Num"):]
+
+
 HEADER = """import Hdc.Num
 import Hdc.Model.Smooth
 import Hdc.Model.Stats
@@ -460,6 +664,19 @@ def main(kernels=None, tool="py2lean_num"):
                     f"namespace Hdc.Gen.NumKernels\nopen Hdc\nvariable {{α : Type}} [Add α] [Sub α] [Mul α] [Div α] [Neg α] [NatCast α] [LT α] [DecidableLT α]\n\n"
                     f"/-- `{cfg['file']}::{cfg['func']}` -/\ndef {cfg['name']} {cfg['uses']} {cfg['extra']} {sig} : {rty} := Id.run do\n{body}\n\nend Hdc.Gen.NumKernels\n")
             write_if_changed(gen / f"{module}.lean", text)
+            if cfg.get("safe"):
+                module = safe_module_of(cfg)
+                cls = cfg.get("translator") or K
+                ks = type("Safe" + cls.__name__, (SafeMixin, cls), {})(cfg, fn)
+                body = ks.run()
+                imports = "".join(f"import {m}\n" for m in ["Hdc.Gen.NumBase", "Hdc.PySafe"] + cfg.get("imports", []) + cfg.get("safe_imports", []))
+                note = ("  Array-valued divisions (not instrumented): " + "; ".join(dict.fromkeys(ks.array_divs)) + ".") if ks.array_divs else ""
+                text = (f"{imports}/-\nGENERATED by harness/{tool}.py (instrumentation mode) from {cfg['file']}::{cfg['func']} (sha256 of the function source {sha}).  Do not edit.\n"
+                        f"The statements of `Hdc.Gen.NumKernels.{cfg['name']}` plus the flag `bad`: set when a subscript is outside `[-len, len)`, a slice is not\n"
+                        f"`0 <= lo <= hi <= len`, a scalar divisor is zero, or an instrumented callee sets its flag.{note}\n-/\n"
+                        f"namespace Hdc.Gen.Safe\nopen Hdc Hdc.Gen.NumKernels\nvariable {{α : Type}} [Add α] [Sub α] [Mul α] [Div α] [Neg α] [NatCast α] [LT α] [DecidableLT α]\n\n"
+                        f"/-- `{cfg['file']}::{cfg['func']}`, instrumented -/\ndef {cfg['name']} {cfg['uses']} {cfg['extra']} {sig} : ({rty}) × Bool := Id.run do\n{body}\n\nend Hdc.Gen.Safe\n")
+                write_if_changed(gen / f"{module}.lean", text)
         except (Unsupported, StopIteration, KeyError, IndexError, AttributeError, OSError, SyntaxError) as e:
             print(f"FAILED Hdc.Gen.{module}: unsupported construct in {cfg['func']}: {e!r}")
             rc = 1
